@@ -129,7 +129,7 @@ static void case_agree(const Spec3& spec) {
   sx::reached("net3d-agree");
 }
 
-static Spec3 polar(const std::string& name, bool heights, bool second_station) {
+static Spec3 polar(const std::string& name, bool heights, bool second_station, bool second_without_ih = false) {
   Spec3 s; s.name = name; Q X0 = 1000, Y0 = 2000, Z0 = 300;
   s.pts.push_back({"S", X0, Y0, Z0, "fix=\"xyz\"", true});
   Q off[5][3] = {{90, 120, 200}, {120, -160, 150}, {-30, 40, 120}, {-120, -90, 200}, {160, 120, -150}};
@@ -138,7 +138,7 @@ static Spec3 polar(const std::string& name, bool heights, bool second_station) {
   St3 st; st.from = 0; st.zero = Q(7, 10); st.ih = heights ? Q(3, 2) : Q(0);
   for (int i = 1; i <= 4; i++) { Q th = heights ? Q(10 + i, 10) : Q(0); st.obs.push_back({0, i, Q(10), Q(0)}); st.obs.push_back({1, i, Q(5), th}); st.obs.push_back({2, i, Q(12), th}); }
   s.st.push_back(st);
-  if (second_station) { St3 t2; t2.from = 0; t2.zero = Q(31, 10); t2.ih = heights ? Q(8, 5) : Q(0);           // the same station set up again: another circle zero and instrument height
+  if (second_station) { St3 t2; t2.from = 0; t2.zero = Q(31, 10); t2.ih = (heights && !second_without_ih) ? Q(8, 5) : Q(0);      // (second_without_ih: the second set carries no from_dh attribute)           // the same station set up again: another circle zero and instrument height
     for (int i = 1; i <= 4; i++) { Q th = heights ? Q(20 - i, 10) : Q(0); t2.obs.push_back({0, i, Q(15), Q(0)}); t2.obs.push_back({1, i, Q(4), th}); t2.obs.push_back({2, i, Q(10), th}); } s.st.push_back(t2); }
   s.dh.push_back({1, 2, Q(3)}); s.dh.push_back({2, 3, Q(2)}); s.dh.push_back({3, 4, Q(3)}); s.dh.push_back({4, 1, Q(2)});
   return s;
@@ -147,7 +147,7 @@ static Spec3 polar(const std::string& name, bool heights, bool second_station) {
 static void gen_cases(const sx::Options& opt, std::vector<sx::Case>& cases) {
   g_prop = opt.prop; bool th = opt.tier == "thorough";
   auto add = [&](const std::string& n, const std::string& fam, std::function<void()> f) { cases.push_back({n, fam, f}); };
-  std::vector<Spec3> specs{polar("polar-plain", false, false), polar("polar-heights", true, false), polar("polar-heights-2sets", true, true)};
+  std::vector<Spec3> specs{polar("polar-plain", false, false), polar("polar-heights", true, false), polar("polar-heights-2sets", true, true), polar("polar-heights-2sets-second-without-ih", true, true, true)};
   // (omitted approximate coordinates only without instrument heights: Acord2 uses the slope observations unreduced, its result is then
   //  0.1-0.2 m off and gama-local needs several re-linearisations, which the exact engine cannot follow)
   if (on("C06")) { int k = 0; for (auto& s : specs) for (int omit = 0; omit < 2; omit++) { if (omit && s.name != "polar-plain") continue; int alg = (k++) % 3; auto sp = std::make_shared<Spec3>(s);
